@@ -687,11 +687,15 @@ func (s *seqDriver) checkReorgExpectations(step int, exp []reorgExpect, countBef
 			n++
 		}
 	}
-	// only when no limit can have interfered (nothing evicted at admission, nothing truncated)
-	if uint64(countBefore+len(exp)) >= cfg.GlobalSlots+cfg.GlobalQueue || uint64(v.np) >= cfg.GlobalSlots || uint64(v.nq) >= cfg.GlobalQueue {
+	// only when no limit can have interfered: nothing evicted at admission, the queue not truncated
+	// (truncateQueue and the per-account cap stop exactly at their limits)
+	if uint64(countBefore+len(exp)) >= cfg.GlobalSlots+cfg.GlobalQueue || uint64(v.nq) >= cfg.GlobalQueue {
 		s.c.Count("reorg_expectations_skipped_limits", n)
 		return
 	}
+	// truncatePending can only have run if more than GlobalSlots transactions were pending at once;
+	// it may overshoot below GlobalSlots but never cuts an account below AccountSlots
+	mayTruncate := uint64(countBefore+len(exp)) > cfg.GlobalSlots
 	locals := s.pool.Locals()
 	for _, e := range exp {
 		if e.excuse != "" {
@@ -699,7 +703,7 @@ func (s *seqDriver) checkReorgExpectations(step int, exp []reorgExpect, countBef
 			continue
 		}
 		a := s.addrs[e.from]
-		if !s.isLocal(locals, a) && uint64(len(v.queued[a])) >= cfg.AccountQueue {
+		if !s.isLocal(locals, a) && (uint64(len(v.queued[a])) >= cfg.AccountQueue || (mayTruncate && uint64(len(v.pend[a])) >= cfg.AccountSlots)) {
 			s.c.Count("reorg_expectations_skipped_limits", 1)
 			continue
 		}
